@@ -47,6 +47,23 @@ history, over one store that grows meanwhile:
   earlier calls (judged on the implementation alone; c12_exact/c12_batch state it for the model,
   which is a pure function of exactly those).  A batch is compared per triple with single fresh checks.
 * then every answer is judged against the model as above.
+A *concurrent* case (key "threads") is a set of real threads calling one shared checker:
+
+  conc = {"store": ..., "rules": ..., "reg": ..., "checker": [max_depth, max_nodes, deadline_ms],
+          "threads": [[["check", [s, r, o], ctx] | ["batch", [[s, r, o], ...], ctx], ...] per thread],
+          "level": "hook" | "line" | "free",
+          "sched": [[thread, grants | None = to completion], ...] (then the rest to completion, in index order)
+                   | {"kind": "single" | "rr" | "random", ...}   (expanded when the case is run)}
+
+  level "hook": cooperative scheduler whose stop points are the test-side code the checker calls (every clock read
+  = once per call + once per visited node, every caveat predicate call); exactly one thread runs at a time, so a
+  run is a function of `sched`.  level "line": harness/sched.py (sys.settrace) with a stop point before every
+  source line of rbacx/rebac/local.py, two threads.  level "free": free-running threads released by a barrier,
+  predicates and the clock yield (time.sleep) - the schedule is sampled, not controlled.
+* every answer must equal the answer of a fresh checker asked alone (sequentially) -> else violation: the answer
+  of a check does not depend on other checks in flight (no limit was reached by that check itself).  The clock is
+  constant, so no deadline interferes.  Then every answer is judged against the model.
+
 Predicate kinds "once:<kind>" keep state (first call ever raises, then pure): the call in which that
 first call can happen is judged by the lower/upper model (predicate raising / pure): never True
 outside the upper `within`, and equal to both when they agree with no limit fired.
@@ -54,6 +71,7 @@ outside the upper `within`, and equal to both when they agree with no limit fire
 import copy
 import itertools
 import json
+import threading
 import time as _time
 
 import lib
@@ -497,7 +515,11 @@ def _check_cases(chk, impl, cases, replay):
     hist = [c for c in cases if "ops" in c]
     if hist:
         _check_histories(chk, impl, hist, replay)
-        cases = [c for c in cases if "ops" not in c]
+    conc = [c for c in cases if "threads" in c]
+    if conc:
+        _check_concurrent(chk, impl, conc, replay)
+    if hist or conc:
+        cases = [c for c in cases if "ops" not in c and "threads" not in c]
         if not cases:
             return
     models = run_models(cases)
@@ -669,9 +691,24 @@ def _hist_ref(impl, h, hstat, skey, tuples, rec, op, cache):
             cache[key] = impl.fresh_ref(h, tuples[:rec["n"]], o, rec["spent"])
         return cache[key]
 
-    if op[0] == "check" or rec["unspent"]:
-        return one(op)
-    return [one(o) for o in _single_ops(op)]
+    top = (hstat, skey, rec["spent"], _opkey(h["checkers"][op[1]]), _opkey(op))
+    if top not in cache:
+        cache[top] = one(op) if op[0] == "check" or rec["unspent"] else [one(o) for o in _single_ops(op)]
+    return cache[top]
+
+
+_OPKEYS = {}
+
+
+def _opkey(op):
+    """json text of an op (or any other part of a case), memoised per object (the enumerated histories share
+    their parts; nothing in a case is mutated after generation)."""
+    ent = _OPKEYS.get(id(op))
+    if ent is None or ent[0] is not op:
+        if len(_OPKEYS) > 200000:
+            _OPKEYS.clear()
+        ent = _OPKEYS[id(op)] = (op, json.dumps(op, sort_keys=True))
+    return ent[1]
 
 
 def _hist_fails(impl, h, ops):
@@ -712,6 +749,8 @@ def shrink_history(impl, h, ops):
 
 _FRESH_CACHE = {}   # fresh-checker answers: functions of their key by construction (new store, checker, predicates)
 _MODEL_CACHE = {}   # model line -> decoded answer (the model is a pure function of the line)
+_ENC_CACHE = {}     # wire encodings of line parts
+_LINE_CACHE = {}    # (registry+rules, store, limits, op, predicate state) -> model line
 
 
 def _check_histories(chk, impl, cases, replay):
@@ -724,8 +763,23 @@ def _check_histories(chk, impl, cases, replay):
     if len(_MODEL_CACHE) > 300000:
         _MODEL_CACHE.clear()
 
-    def want(*args):
-        ln = lib.model_call("rebac.multi", *args)
+    if len(_ENC_CACHE) > 300000:
+        _ENC_CACHE.clear()
+    if len(_LINE_CACHE) > 300000:
+        _LINE_CACHE.clear()
+
+    def enc(key, val):
+        e = _ENC_CACHE.get(key)
+        if e is None:
+            e = _ENC_CACHE[key] = lib.enc(val)
+        return e
+
+    def want(key, store, hstat, rules, mreg, qs, ml):
+        ln = _LINE_CACHE.get(key)
+        if ln is None:
+            # == lib.model_call("rebac.multi", store, rules, mreg, qs, [ml]), with the encodings of the big parts memoised
+            ln = _LINE_CACHE[key] = " ".join(("rebac.multi", enc("s" + key[1], store), enc("r" + hstat, rules),
+                                              lib.enc(mreg), lib.enc(qs), lib.enc([ml])))
         if ln not in _MODEL_CACHE:
             _MODEL_CACHE[ln] = None
             lines.append(ln)
@@ -736,26 +790,30 @@ def _check_histories(chk, impl, cases, replay):
     for h in cases:
         recs, tuples = impl.history(h)
         rules, reg = h.get("rules"), h.get("reg")
-        hstat = json.dumps([rules, reg], sort_keys=True)
+        hrules = _opkey(rules) if rules is not None else "null"
+        hstat = hrules + (_opkey(reg) if reg is not None else "null")
         skeys = {}
         plan = []
-        for op, rec in zip(h["ops"], recs):
+        for i, (op, rec) in enumerate(zip(h["ops"], recs)):
             if rec is None:
                 plan.append(None)
                 continue
             n = rec["n"]
             if n not in skeys:
-                skeys[n] = json.dumps(tuples[:n])
+                n0 = len(h.get("store") or [])
+                skeys[n] = "".join([_opkey(h["store"]) if n0 else "[]"] + ["+" + _opkey(o) for o in h["ops"][:i]
+                                                                           if o[0] == "add"])
             ref = _hist_ref(impl, h, hstat, skeys[n], tuples, rec, op, cache)
             l = h["checkers"][op[1]]
+            lkey = _opkey(l)
             if op[0] == "check":
                 sc = op[4] if len(op) > 4 and op[4] else [START, [], START]
                 qs, ml = [list(op[2])], mlimit([l[0], l[1], l[2], sc[0], list(sc[1]), sc[2]])
             else:
                 qs, ml = [list(t) for t in op[2]], mlimit([l[0], l[1], l[2], 0, [], 0])
             lows = (True, False) if rec["unspent"] else (False,)
-            plan.append((ref, [want(tuples[:n], rules, hist_mreg(reg, op[3], rec["spent"], low), qs, [ml])
-                               for low in lows]))
+            plan.append((ref, [want((hstat, skeys[n], lkey, _opkey(op), rec["spent"], low), tuples[:n], hrules, rules,
+                                    hist_mreg(reg, op[3], rec["spent"], low), qs, ml) for low in lows]))
         runs.append((h, recs, plan))
     if lines:
         for ln, x in zip(lines, lib.run_model("rebac", lines, chunk=400)):
@@ -764,8 +822,8 @@ def _check_histories(chk, impl, cases, replay):
     shrinks = [4]
     for h, recs, plan in runs:
         fam = h.get("fam", "?")
-        hkey = json.dumps([h.get("store"), h.get("rules"), h.get("reg"), h["checkers"], h.get("shared_ctx"), h["ops"]],
-                          sort_keys=True)
+        hkey = "|".join([_opkey(h.get("store") or []), _opkey(h.get("rules") or {}), _opkey(h.get("reg") or {}),
+                         _opkey(h["checkers"]), str(h.get("shared_ctx"))] + [_opkey(o) for o in h["ops"]])
         cnt("fam:" + fam)
         cnt("hist_len:%s" % (len(h["ops"]) if len(h["ops"]) < 5 else "5-8" if len(h["ops"]) < 9 else "9+"))
         exp = h.get("expect")
@@ -826,6 +884,285 @@ def _check_histories(chk, impl, cases, replay):
             else:
                 chk.corr_break(v[1], case, impl=a, model=info, theorems=THMS)
             break   # later calls of a history that already failed are not independent evidence
+    for k, n in dist.items():
+        chk.count(k, n)
+
+
+# --------------------------------------------------------------------------
+# concurrent calls on one checker
+# --------------------------------------------------------------------------
+CONC_CLAUSE = ("the answer of a %s depends on other calls in flight on the same checker: it differs from the answer a "
+               "fresh checker gives for the same query, limits and context when asked alone (no limit was reached by "
+               "that call itself: the clock is constant and max_nodes suffices for it)")
+
+
+class Coop:
+    """deterministic cooperative scheduler over real threads; the stop points are calls of `stop()` from the
+    test-side hooks (clock, caveat predicates).  A thread runs only between a grant and its next stop point."""
+
+    def __init__(self, n, timeout=8.0):
+        import _thread
+
+        self.n, self.timeout = n, timeout
+        self.go = [_thread.allocate_lock() for _ in range(n)]
+        self.back = [_thread.allocate_lock() for _ in range(n)]
+        for l in self.go + self.back:
+            l.acquire()
+        self.done = [False] * n
+        self.res = [None] * n
+        self.grants = [0] * n
+        self.free = False
+        self.tl = threading.local()
+
+    def stop(self):
+        i = getattr(self.tl, "i", None)
+        if i is None or self.free:
+            return
+        self.back[i].release()
+        self.go[i].acquire()
+
+    def _body(self, i, fn):
+        self.tl.i = i
+        self.go[i].acquire()                 # nothing runs before the first grant
+        try:
+            self.res[i] = fn()
+        except BaseException as e:  # noqa: BLE001
+            self.res[i] = ["!thread", type(e).__name__, str(e)[:80]]
+        finally:
+            self.done[i] = True
+            self.back[i].release()
+
+    def grant(self, i):
+        if self.done[i]:
+            return False
+        self.grants[i] += 1
+        self.go[i].release()
+        if not self.back[i].acquire(timeout=self.timeout):
+            self.free = True
+            for l in self.go:
+                try:
+                    l.release()
+                except RuntimeError:
+                    pass
+            raise TimeoutError("thread %d did not reach a stop point within %.0fs" % (i, self.timeout))
+        return True
+
+    def run(self, fns, sched):
+        ths = [threading.Thread(target=self._body, args=(i, f), daemon=True) for i, f in enumerate(fns)]
+        for t in ths:
+            t.start()
+        for i, k in list(sched) + [[i, None] for i in range(self.n)]:
+            if k is None:
+                while self.grant(i):
+                    pass
+            else:
+                for _ in range(k):
+                    if not self.grant(i):
+                        break
+        for t in ths:
+            t.join(timeout=self.timeout)
+        return self.res
+
+
+def _conc_build(impl, c, hook):
+    """shared store + checker for a concurrent case; `hook()` is called before every predicate evaluation."""
+    st = impl._store(c["store"])
+    reg = None
+    if c.get("reg") is not None:
+        reg = {}
+        for name, kind in c["reg"].items():
+            f = HPREDS[kind]
+            reg[name] = None if f is None else (lambda ctx, f=f: (hook(), f(ctx))[1])
+    l = c["checker"]
+    return impl.checker(st, conv_rules(impl.L, c.get("rules")), reg, l[0], l[1], l[2])
+
+
+def _conc_prog(ck, prog):
+    def run():
+        out = []
+        for op in prog:
+            try:
+                if op[0] == "check":
+                    q = op[1]
+                    out.append(ck.check(q[0], q[1], q[2], context=copy.deepcopy(op[2])))
+                else:
+                    out.append(list(ck.batch_check([tuple(t) for t in op[1]], context=copy.deepcopy(op[2]))))
+            except Exception as e:  # noqa: BLE001
+                out.append(["!raise", type(e).__name__, str(e)[:80]])
+        return out
+    return run
+
+
+def conc_run(impl, c, sched, only=None):
+    """run the threads of `c` under the concrete schedule; returns ([answers per thread], [grants per thread]).
+    `only` = run just that thread (alone, on its own fresh checker): step counting."""
+    progs = c["threads"] if only is None else [c["threads"][only]]
+    level = c.get("level", "hook")
+    try:
+        if level == "hook":
+            co = Coop(len(progs))
+            _time.perf_counter_ns = lambda: (co.stop(), START)[1]
+            ck = _conc_build(impl, c, co.stop)
+            res = co.run([_conc_prog(ck, p) for p in progs], sched)
+            return res, co.grants
+        if level == "line":
+            import sched as _sched
+
+            _time.perf_counter_ns = lambda: START
+            ck = _conc_build(impl, c, lambda: None)
+            s = _sched.Scheduler([impl.L.__file__], None, None, block_timeout=5.0, hard_timeout=10.0)
+            names = [str(i) for i in range(len(progs))]
+            grants = [0] * len(progs)
+            for n, p in zip(names, progs):
+                s.add(n, _conc_prog(ck, p))
+            try:
+                for i, k in sched:
+                    j = 0
+                    while (k is None or j < k) and not s.is_done(names[i]):
+                        r = s.step(names[i])
+                        grants[i] += 1
+                        j += 1
+                        if r != "stopped":
+                            break
+                if not s.finish(names):
+                    raise TimeoutError("threads under the line scheduler did not finish")
+            finally:
+                s.close()
+            rs = s.results()
+            return [rs[n][0] if rs[n][1] is None else ["!thread", type(rs[n][1]).__name__, str(rs[n][1])[:80]]
+                    for n in names], grants
+        # free-running: a barrier releases the threads together; predicates and the clock yield
+        bar = threading.Barrier(len(progs))
+
+        def nap():
+            _time.sleep(0.0003)
+
+        _time.perf_counter_ns = lambda: (nap(), START)[1]
+        ck = _conc_build(impl, c, nap)
+        res = [None] * len(progs)
+
+        def body(i, f):
+            bar.wait(timeout=10)
+            res[i] = f()
+
+        ths = [threading.Thread(target=body, args=(i, _conc_prog(ck, p)), daemon=True) for i, p in enumerate(progs)]
+        for t in ths:
+            t.start()
+        for t in ths:
+            t.join(timeout=20)
+        return res, [0] * len(progs)
+    finally:
+        _time.perf_counter_ns = impl.real
+
+
+def conc_schedules(c, steps, rng_seed):
+    """concrete schedules for a symbolic `sched` ({"kind": ...}); `steps` = grants each thread needs alone."""
+    import random as _random
+
+    sp = c.get("sched") or {"kind": "rr", "quantum": 1}
+    if isinstance(sp, list):
+        return [sp]
+    n = len(c["threads"])
+    if sp["kind"] == "free":
+        return [[] for _ in range(sp.get("rounds", 3))]
+    if sp["kind"] == "single":
+        # thread a runs p grants, thread b runs to completion, a finishes: every p (on a stride), every ordered pair
+        out = []
+        for a in range(n):
+            for b in range(n):
+                if a != b:
+                    out += [[[a, p], [b, None], [a, None]] for p in range(1, steps[a] + 1, sp.get("stride", 1))]
+        return out
+    if sp["kind"] == "rr":
+        q = sp.get("quantum", 1)
+        return [[[i, q] for _ in range(max(steps) // q + 2) for i in range(n)]]
+    if sp["kind"] == "random":
+        out = []
+        for j in range(sp.get("count", 5)):
+            r = _random.Random("%s/%s/%s" % (rng_seed, sp.get("seed", 0), j))
+            out.append([[r.randrange(n), r.randint(1, 3)] for _ in range(sum(steps) + n)])
+        return out
+    raise ValueError(sp)
+
+
+def _check_concurrent(chk, impl, cases, replay):
+    dist = {}
+
+    def cnt(k, n=1):
+        dist[k] = dist.get(k, 0) + n
+
+    for c in cases:
+        fam = c.get("fam", "conc")
+        level = c.get("level", "hook")
+        l = c["checker"]
+        # references: every call alone on a fresh checker over a fresh store (sequential), and the model
+        calls = [(ti, ci, op) for ti, prog in enumerate(c["threads"]) for ci, op in enumerate(prog)]
+        h = {"rules": c.get("rules"), "reg": c.get("reg"), "checkers": [l]}
+        ref, mlines = {}, {}
+        for ti, ci, op in calls:
+            hop = (["check", 0, op[1], op[2], [START, [], START]] if op[0] == "check" else ["batch", 0, op[1], op[2]])
+            if op[0] == "check":
+                ref[ti, ci] = impl.fresh_ref(h, c["store"], hop, ())
+            else:   # a batch equals its single checks (asked alone, one after the other)
+                ref[ti, ci] = [impl.fresh_ref(h, c["store"], ["check", 0, list(t), op[2], [START, [], START]], ())
+                               for t in op[1]]
+            qs = [list(op[1])] if op[0] == "check" else [list(t) for t in op[1]]
+            mlines[ti, ci] = lib.model_call("rebac.multi", c["store"], c.get("rules"),
+                                            hist_mreg(c.get("reg"), op[2], (), False), qs,
+                                            [mlimit([l[0], l[1], l[2], START, [], START])])
+        need = [ln for ln in set(mlines.values()) if _MODEL_CACHE.get(ln) is None]
+        if need:
+            for ln, x in zip(need, lib.run_model("rebac", need, chunk=400)):
+                _MODEL_CACHE[ln] = lib.dec(x)
+        ckey = json.dumps([c["store"], c.get("rules"), c.get("reg"), l, c["threads"], level], sort_keys=True, default=str)
+        cnt("fam:" + fam)
+        cnt("conc_level:" + level)
+        cnt("conc_threads:%d" % len(c["threads"]))
+        try:
+            steps = [0] * len(c["threads"])
+            if not isinstance(c.get("sched"), list) and level != "free":
+                for ti in range(len(c["threads"])):
+                    steps[ti] = conc_run(impl, c, [[0, None]], only=ti)[1][0]
+            scheds = conc_schedules(c, steps, chk.seed)
+            if level == "free":
+                chk.extra["concurrent_free_running_note"] = ("level 'free' cases run free threads: their schedule is "
+                                                             "sampled (a few rounds each), not controlled")
+            failed = False
+            for sc in scheds:
+                res, grants = conc_run(impl, c, sc)
+                cnt("conc_schedules")
+                overl = level == "free" or sum(1 for g in grants if g) >= 2
+                for ti, ci, op in calls:
+                    r = res[ti]
+                    if not isinstance(r, list) or r[:1] == ["!thread"] or ci >= len(r):
+                        a = r if r is not None else ["!thread", "Timeout", "no answer"]
+                    else:
+                        a = r[ci]
+                    mm = _MODEL_CACHE[mlines[ti, ci]]
+                    chk.mark((ckey, json.dumps(sc), ti, ci), overl and any(x[0][1] >= 2 or x[0][0] == "true" for x in mm))
+                    what = "check" if op[0] == "check" else "batch_check"
+                    v = None
+                    if a != ref[ti, ci]:
+                        v = ("violation", CONC_CLAUSE % what)
+                    elif op[0] == "check":
+                        v = judge(a, mm[0][0])
+                    else:
+                        v = next((x for x in (judge(y, mm[k][0]) for k, y in enumerate(a)) if x), None)
+                    if v and not failed:
+                        failed = True
+                        case = dict(c, sched=sc)
+                        info = {"thread": ti, "call": ci, "asked_alone_on_a_fresh_checker": ref[ti, ci],
+                                "all_answers": res, "model": [x[0] for x in mm]}
+                        if v[0] == "violation":
+                            if len(chk.violations) < 80:
+                                chk.violation(v[1], case, impl=a, model=info)
+                        else:
+                            chk.corr_break(v[1], case, impl=a, model=info, theorems=THMS)
+                if failed:
+                    break   # one schedule per case is enough evidence
+        except TimeoutError as e:
+            cnt("conc_harness_timeouts")
+            chk.notes.append("concurrent case abandoned (%s): %s" % (level, e))
     for k, n in dist.items():
         chk.count(k, n)
 
@@ -1344,8 +1681,7 @@ def gen_hist_enum(chk):
 
 HCTXS = [None, {}, {"ok": True}, {"ok": False}, {"ok": True, "hour": 10}, {"ok": 0, "hour": 22}, {"hour": "x"},
          {"hour": 12}, {"ok": "x", "z": [1]}]
-HKINDS = ["ctx", "ctx", "nok", "hour", "isnone", "get", "once:T", "once:ctx", "once:nok", "T", "F", "R", "none",
-          "badbool", "truthy"]
+HKINDS = ["ctx", "ctx", "ctx", "nok", "hour", "hour", "isnone", "get", "T", "F", "R", "none", "badbool", "truthy"]
 
 
 def gen_hist_random(chk):
@@ -1353,12 +1689,15 @@ def gen_hist_random(chk):
     store, contexts on which predicates are true / false / raise, clock scripts, batches with repeats."""
     rng = chk.rng
     out = []
-    for _ in range(1500 if chk.tier == "quick" else 30000):
+    for _ in range(1200 if chk.tier == "quick" else 20000):
         store, rules, _reg, queries = gen_layered(rng)
         for t in store:
             if t[3] is None and rng.random() < 0.3:
                 t[3] = rng.choice(CAVS)
         reg = {c: rng.choice(HKINDS) for c in CAVS if rng.random() < 0.85}
+        used = sorted({t[3] for t in store if t[3] is not None and t[3] in reg})
+        if used and rng.random() < 0.3:                   # at most one stateful predicate, on a name in use
+            reg[rng.choice(used)] = rng.choice(["once:T", "once:ctx", "once:nok", "once:hour"])
         queries = queries + [[t[0], t[1], t[2]] for t in store if t[1] != "parent"][:4]
         subjects = sorted({q[0] for q in queries})
         k = rng.randint(0, len(store))
@@ -1396,6 +1735,71 @@ def gen_hist_random(chk):
             ops.append(["check", 0, rng.choice(queries), rng.choice(HCTXS), None])
         out.append({"store": init, "rules": rules, "reg": reg, "checkers": checkers,
                     "shared_ctx": rng.random() < 0.5, "ops": ops, "fam": "hist-random"})
+    return out
+
+
+# ---- concurrent calls -------------------------------------------------------------
+GOOD = {"ok": True, "hour": 10}
+
+
+def conc_store(N, D):
+    """N disjoint chains doc:d<n> <- f<n>_0 <- ... <- f<n>_(D-1) with the grant of user:u<n> on the last folder:
+    (u<n>, viewer, d<n>) needs D + 1 visits; caveats (c1 on every other edge, c2 on every other grant)."""
+    st = []
+    for n in range(N):
+        prev = "doc:d%d" % n
+        for i in range(D):
+            f = "folder:f%d_%d" % (n, i)
+            st.append([f, "parent", prev, "c1" if (i + n) % 2 == 0 else None])
+            prev = f
+        st.append(["user:u%d" % n, "viewer", prev, "c2" if n % 2 else None])
+    return st
+
+
+def conc_case(N, D, slack, kind, level, sched):
+    q = [["user:u%d" % n, "viewer", "doc:d%d" % n] for n in range(N)]
+    if kind == "own":
+        progs = [[["check", q[n], GOOD]] for n in range(N)]
+    elif kind == "same":
+        progs = [[["check", q[0], GOOD]] for n in range(N)]
+    else:   # mixed: repeated checks, batches with a non-derivable triple and a repeat, a context the predicates raise on
+        progs = []
+        for n in range(N):
+            cross = ["user:u%d" % n, "viewer", "doc:d%d" % ((n + 1) % N)]
+            progs.append([[["check", q[n], GOOD], ["check", q[n], GOOD]],
+                          [["batch", [q[n], cross, q[n]], GOOD]],
+                          [["check", q[n], None], ["check", q[n], GOOD]]][n % 3])
+    k = D + 1
+    mn = 10000 if slack is None else k + slack
+    return {"store": conc_store(N, D), "rules": RULE_POOL[4], "reg": {"c1": "hour", "c2": "ctx"},
+            "checker": [D + 2, mn, None], "threads": progs, "level": level, "sched": sched,
+            "fam": "conc-%s:%s" % (level, kind)}
+
+
+def gen_conc_cases(chk):
+    thorough = chk.tier == "thorough"
+    out = []
+    kinds = ["own", "mixed", "same"]
+    j = 0
+    for N in ((2, 3, 4, 5, 6, 7, 8) if thorough else (2, 3, 5, 8)):
+        for D in ((1, 2, 3, 5, 7) if thorough else (2, 5)):
+            for slack in ((0, 1, D, None) if thorough else (0, D)):
+                j += 1
+                ks = kinds if thorough else [kinds[j % 3]]
+                for kind in ks:
+                    specs = [{"kind": "rr", "quantum": 1}, {"kind": "rr", "quantum": 2},
+                             {"kind": "random", "seed": j, "count": 20 if thorough else 4}]
+                    if N <= (4 if thorough else 2):
+                        specs.append({"kind": "single"})
+                    for sp in specs:
+                        out.append(conc_case(N, D, slack, kind, "hook", sp))
+    # line level (harness/sched.py): two threads, every single pre-emption (quick: every 2nd line)
+    for D, slack, kind in (((1, 0, "own"), (2, 0, "own"), (2, 1, "mixed"), (3, 0, "same"), (2, None, "mixed"))
+                           if thorough else ((2, 0, "own"),)):
+        out.append(conc_case(2, D, slack, kind, "line", {"kind": "single", "stride": 1 if thorough else 2}))
+    # free-running threads (sampled schedules)
+    for N, D in (((5, 6), (8, 4), (3, 7), (2, 6)) if thorough else ((5, 6), (8, 4))):
+        out.append(conc_case(N, D, 0, "own", "free", {"kind": "free", "rounds": 5 if thorough else 3}))
     return out
 
 
@@ -1463,6 +1867,9 @@ def run(chk):
     hr = gen_hist_random(chk)
     for i in range(0, len(hr), 5000):
         check_cases(chk, hr[i:i + 5000])
+    cc = gen_conc_cases(chk)
+    chk.extra["concurrent_cases"] = len(cc)
+    check_cases(chk, cc)
     # _split_ref (private helper; skipped when it is gone)
     from rbacx.rebac import local as L
 
